@@ -24,7 +24,7 @@ Scheme
 exit 0: written/unchanged; exit 3: a construct outside the supported subset was met (`PY2LEAN-FAIL: …`):
 the check then treats the source-level tie as broken and searches for a failing input.
 """
-import ast, sys, os, argparse, traceback
+import re, ast, sys, os, argparse, traceback
 
 class Unsupported(Exception):
     pass
@@ -440,6 +440,8 @@ def assigned(stmts):
                     tgt(t)
             elif isinstance(n, ast.AugAssign):
                 tgt(n.target)
+            elif isinstance(n, ast.AnnAssign) and n.value is not None:
+                tgt(n.target)
             elif isinstance(n, ast.For):
                 tgt(n.target)
             elif isinstance(n, ast.Expr) and isinstance(n.value, ast.Call) and isinstance(n.value.func, ast.Attribute) \
@@ -603,6 +605,14 @@ def tr_block(fn, stmts, env, k, ind):
             nme = lname(tg.value.id)
             return bind_all(bi + bv, f'(Py.listSet {nme} {paren(i)} {paren(v)}) >>= fun {nme} =>' + nl + tr_block(fn, rest, env, k, ind))
         raise Unsupported(f'assignment target {ast.unparse(tg)} (line {s.lineno})')
+    if isinstance(s, ast.AnnAssign):
+        # `x: T = v` is `x = v` (the annotation is not evaluated into anything the function uses); a bare `x: T` declares nothing
+        if s.value is None:
+            return tr_block(fn, rest, env, k, ind)
+        if not isinstance(s.target, ast.Name):
+            raise Unsupported('annotated assignment to a non-name')
+        new = ast.Assign(targets=[ast.Name(id=s.target.id, ctx=ast.Store())], value=s.value, lineno=s.lineno)
+        return tr_block(fn, [ast.copy_location(new, s)] + rest, env, k, ind)
     if isinstance(s, ast.AugAssign):
         if not isinstance(s.target, ast.Name):
             raise Unsupported('augmented assignment to a non-name')
@@ -772,6 +782,27 @@ def desugar(f):
     f.body = _DesugarListComp()._expand(f.body)
     return f
 
+_BIND_LET = re.compile(r">>= fun (t\d+_) => let ([A-Za-z_][A-Za-z0-9_']*) : ([A-Za-z][A-Za-z0-9_. ]*?) := \1;\s*")
+
+def name_binds(txt):
+    """`m >>= fun tN_ => let x : T := tN_; rest`  is  `m >>= fun x => rest` (tN_ is fresh and used nowhere else): a local that merely names
+    the result of a call leaves no trace, so introducing or removing such a local in the source does not change the translation"""
+    while True:
+        done = False
+        for m in _BIND_LET.finditer(txt):
+            t = m.group(1)
+            # the temporary must occur exactly twice inside this definition (binder and let)
+            start = txt.rfind('\ndef ', 0, m.start())
+            end = txt.find('\ndef ', m.end())
+            seg = txt[start if start >= 0 else 0: end if end >= 0 else len(txt)]
+            if len(re.findall(r'\b' + re.escape(t) + r'\b', seg)) != 2:
+                continue
+            txt = txt[:m.start()] + f'>>= fun {m.group(2)} => ' + txt[m.end():]
+            done = True
+            break
+        if not done:
+            return txt
+
 def translate(repo):
     out = ['/- GENERATED by tools/py2lean.py from the current /repo working tree. DO NOT EDIT. -/',
            'import A5.Model.PySem', '', 'set_option linter.unusedVariables false', '']
@@ -853,7 +884,7 @@ def translate(repo):
         out += body_txt
         out.append(f'end A5.Src.{ns}')
         out.append('')
-    return '\n'.join(out)
+    return name_binds('\n'.join(out))
 
 def main():
     ap = argparse.ArgumentParser()
